@@ -120,7 +120,9 @@ def binLine80 (t : IntTy) (e : Endian) (v : Int) : String :=
     pure (a, b)
   let ss := swap native t v >>= swap native t
   let cc := convert native t v e >>= fun x => convert native t x e
-  s!"w={showE bytesHex w} r={showE (fun p => optInt p.1) r} r2={showE (fun p => optInt p.2) r} ss={showE toString ss} cc={showE toString cc}"
+  -- `swap` does not depend on the byte order and belongs to the non-native case: it is only printed there
+  let ssText := if e = native then "" else s!" ss={showE toString ss}"
+  s!"w={showE bytesHex w} r={showE (fun p => optInt p.1) r} r2={showE (fun p => optInt p.2) r}{ssText} cc={showE toString cc}"
 
 def binsDigest (t : IntTy) (e : Endian) (lo : Int) (n : Nat) : String :=
   let h := (List.range n).foldl (fun h (i : Nat) => fnv h (binLine t e (lo + (i : Int)))) fnvInit
